@@ -27,5 +27,12 @@ mcGensSlowI == << NewCrawl(Links0), NewNetSlowQuery(FALSE, TRUE) >>
 mcGensSF11  == << NewCrawl(Links0), NewRule(A, Path1), NewNetSlowQuery(TRUE, FALSE) >>
 mcGensTop   == << NewCrawl(Links0), NewCrawl(<< [src |-> D, tgts |-> <<Z>>] >>), NewTopQuery(PsA, 2, Unlimited) >>
 mcGensTopAll == << NewCrawl(Links0), NewCrawl(<< [src |-> D, tgts |-> <<Z>>] >>), NewTopQuery(PsA, 1000, 1) >>
+\* setup with links already there, so that the link queries have something to walk from the start
+mcGensLinks    == << NewCrawl(Links0), NewCrawl(<< [src |-> C, tgts |-> <<E, B>>] >>), NewLinksQuery(PsA, TRUE) >>
+mcGensLinksIn  == << NewCrawl(Links0), NewCrawl(<< [src |-> C, tgts |-> <<E, B>>] >>), NewLinksQuery(PsA, FALSE) >>
+mcGensPageLinks == << NewCrawl(Links0), NewCrawl(<< [src |-> C, tgts |-> <<E, B>>] >>), NewPageLinksQuery(1, PsA, TRUE, TRUE, TRUE) >>
+mcGensChildren == << NewCrawl(<< [src |-> D, tgts |-> <<Z>>] >>), NewRule(A, Path1), NewChildrenQuery(1, PsA) >>
+mcGensLinksF11 == << NewCrawl(Links0), NewRule(A, Path1), NewLinksQuery(PsA, TRUE) >>
+mcGensPageLinksF11 == << NewCrawl(Links0), NewRule(A, Path1), NewPageLinksQuery(1, PsA, TRUE, TRUE, TRUE) >>
 mcGensF11 == << NewCrawl(Links0), NewRule(A, Path1), NewNetQuery(TRUE, FALSE) >>
 =============================================================================
